@@ -97,7 +97,11 @@ def finish(prop, tier, seed, mod, results, extra, t_start, verbose=False):
     import concurrent.futures
 
     prepared = []
-    for ob in refuted:
+    # an undecided obligation that carries a candidate counterexample (core.lemma) is replayed like a refuted one; only a
+    # failing input reproduced on the real code turns it into a violation
+    candidates = [o for o in unknown if isinstance(o.get("model"), dict) and o["model"].get("candidate_from_lemma")]
+    seen_cand = set()
+    for ob in list(refuted) + candidates:
         k = match_known(known, prop, ob["name"])
         u = unit_by_name.get(ob["unit"])
         rel = os.path.join("replays", prop, _safe(ob["name"]) + ".json")
@@ -106,7 +110,8 @@ def finish(prop, tier, seed, mod, results, extra, t_start, verbose=False):
             "obligation": ob["name"],
             "unit": ob["unit"],
             "case": u.label if u else None,
-            "status": "refuted by z3 (pc and not clause satisfiable)",
+            "status": "refuted by z3 (pc and not clause satisfiable)" if ob["status"] == "refuted" else
+                      "undecided by z3; candidate counterexample from the lemma's hypotheses, decided by replay",
             "model": ob.get("model"),
             "path_decisions": ob.get("path"),
             "solver_note": ob.get("note"),
@@ -142,6 +147,14 @@ def finish(prop, tier, seed, mod, results, extra, t_start, verbose=False):
                 json.dump(rec, f, indent=1, default=str)
         ob["replay"] = rel
         ob["reproduced"] = reproduced
+        if ob["status"] == "unknown":
+            if reproduced:
+                unknown.remove(ob)
+                if k is not None:
+                    known_hits.append((k, ob))
+                else:
+                    violations.append((ob, rel, True))
+            continue
         if ob.get("tainted"):
             unknown.append(ob)
             continue
